@@ -13,7 +13,7 @@ from .classtable import ClassInfo, FuncInfo
 from . import axioms
 
 MAX_RUNS = 400
-FUNC_BUDGET_S = float(os.environ.get('PYVC_FUNC_BUDGET', '240'))
+FUNC_BUDGET_S = float(os.environ.get('PYVC_FUNC_BUDGET', '400'))
 import sys
 sys.setrecursionlimit(int(os.environ.get("PYVC_RECLIMIT", "6000")))
 
